@@ -2,7 +2,7 @@
    present / verifies are pysaml2's own view: item.signature after parsing, and the
    outcome of SecurityContext._check_signature for that element (C01/C03/C20 say
    what a positive outcome means). *)
-From PV Require Import Lib.Base Model.Status Model.Response Model.Client Proofs.Response_lemmas Proofs.Rel_lemmas Proofs.C02_lemmas Proofs.Client_lemmas.
+From PV Require Import Lib.Base Model.Status Model.Response Model.Client Proofs.Response_lemmas Proofs.Rel_lemmas Proofs.C02_lemmas Proofs.Client_lemmas Model.AdviceSig Proofs.AdviceSig_lemmas.
 Open Scope Z_scope.
 
 (* For EVERY configuration, clock, content and signature state:
@@ -197,3 +197,65 @@ Definition history_table_ok : bool :=
 Example C02_history_table : history_table_ok = true.
 Proof. vm_compute. reflexivity. Qed.
 Print Assumptions C02_history_table.
+
+(* ================= encrypted advice: an assertion whose <Advice> holds EncryptedAssertion elements ================= *)
+(* The run on a document tree is Model.Encrypt.parse_response_t (the model of AuthnResponse.parse_assertion with both
+   decrypt loops and the advice pass decrypt_assertions(advice.encrypted_assertion, decr_text, issuer), shared with
+   C17), for every tool policy, key set, fault schedule and tree.  advice_read t2 = the assertions found inside the
+   EncryptedAssertions of the Advice of every assertion in hand after decryption; sig_bad = present and not verifying. *)
+
+(* at the assertion stage, whatever is required (req), in whatever state (first attempt or retry): the stage
+   succeeds only if the text was decrypted and NO advice assertion carries a signature that does not verify *)
+Theorem C02_advice_stage_invalid_never_ignored :
+  forall tc c irt req s root again fs s',
+    Encrypt.so_res (Encrypt.parse_t tc c irt req s root again fs) = Ok s' -> Encrypt.find_encrypt_data root = true ->
+    exists t2, decrypted tc root fs = Some t2 /\ Forall (fun v => sig_bad v = false) (advice_read t2).
+Proof. exact parse_t_advice. Qed.
+Print Assumptions C02_advice_stage_invalid_never_ignored.
+
+Theorem C02_advice_stage_bad_refused :
+  forall tc c irt req s root again fs t2,
+    Encrypt.find_encrypt_data root = true -> decrypted tc root fs = Some t2 ->
+    Exists (fun v => sig_bad v = true) (advice_read t2) ->
+    exists e, Encrypt.so_res (Encrypt.parse_t tc c irt req s root again fs) = Err e.
+Proof. exact parse_t_bad_advice_refused. Qed.
+Print Assumptions C02_advice_stage_bad_refused.
+
+(* the whole run (force-require / catch / retry around the stage): an accepted response was accepted by an attempt
+   whose document - the response as received, or what the failed first attempt left when want_assertions_signed
+   is off - was decrypted completely, every advice signature present verifying.  No option switches this off. *)
+Theorem C02_invalid_never_ignored_advice :
+  forall tc c r root fs o,
+    Encrypt.parse_response_t tc c r root fs = Ok o ->
+    exists root' fs', attempt_document tc c r root fs root' fs' /\
+      (Encrypt.find_encrypt_data root' = true ->
+       exists t2, decrypted tc root' fs' = Some t2 /\ Forall (fun v => sig_bad v = false) (advice_read t2)).
+Proof. exact tree_advice_verified. Qed.
+Print Assumptions C02_invalid_never_ignored_advice.
+
+(* the documented table on concrete trees (non-vacuity, and the retry paths evaluated): 8 settings x response sig x
+   assertion sig x {plain, encrypted} assertion carrying an encrypted advice assertion x advice sig, and the same
+   with a second, validly signed, advice EncryptedAssertion before / after it:
+   accepted <-> documented rule /\ the advice signature, if present, verifies *)
+Definition advS (n : N) (sg : option (result unit)) := {| a_id := n; a_sig := sg; a_authn := []; a_conditions := a_conditions (asrtS None);
+  a_has_subject := true; a_confirmations := []; a_name_id := None |}.
+Definition advEA (n : N) (sg : option (result unit)) : Encrypt.dtree :=
+  Encrypt.DEA [Encrypt.DEnc 1%N (Encrypt.DAsrt (advS n sg) false [] [])].
+Definition treeS (asg bsg : option (result unit)) (enc : bool) (shape : nat) : list Encrypt.dtree :=
+  let adv := match shape with
+             | O => [advEA 2%N bsg]
+             | S O => [advEA 2%N bsg; advEA 3%N (Some (Ok tt))]
+             | _ => [advEA 3%N (Some (Ok tt)); advEA 2%N bsg]
+             end in
+  let main := Encrypt.DAsrt (asrtS asg) false adv [] in
+  if enc then [Encrypt.DEA [Encrypt.DEnc 1%N main]] else [main].
+Definition tcS := {| Encrypt.t_keys := [1%N]; Encrypt.t_pol := Encrypt.PFail; Encrypt.t_fixed := true |}.
+Definition advice_table_ok : bool :=
+  forallb (fun b1 => forallb (fun b2 => forallb (fun b3 => forallb (fun rsg => forallb (fun asg => forallb (fun bsg => forallb (fun enc =>
+    forallb (fun shape =>
+      Bool.eqb (is_ok (parse_advice_run tcS (cfgS b1 b2 b3) (respS rsg None false) (treeS asg bsg enc shape)))
+               (sigok rsg && sigok asg && sigok bsg && implb b1 (present rsg) && implb b2 (present asg) && implb b3 (present rsg || present asg)))
+    [0; 1; 2]%nat) bools) sigstates) sigstates) sigstates) bools) bools) bools.
+Example C02_advice_table : advice_table_ok = true.
+Proof. vm_compute. reflexivity. Qed.
+Print Assumptions C02_advice_table.
